@@ -404,8 +404,14 @@ def main(argv=None):
     m = load_module(modpath)
     P = m.P
     idxs = [i for i, u in enumerate(P.units) if not a.unit or a.unit in u.name]
-    tasks = [(modpath, i, a.tier, a.jobs) for i in idxs]
-    results = [run_unit(t) for t in tasks]
+    if a.jobs > 1 and len(idxs) > 1:
+        nw = min(len(idxs), 6)
+        tasks = [(modpath, i, a.tier, max(3, a.jobs // nw + 1)) for i in idxs]
+        with cf.ProcessPoolExecutor(max_workers=nw) as ex:
+            results = list(ex.map(run_unit, tasks))
+    else:
+        tasks = [(modpath, i, a.tier, a.jobs) for i in idxs]
+        results = [run_unit(t) for t in tasks]
 
     known = load_known()
     lock = load_lock().get(pid)
